@@ -85,6 +85,10 @@ def run(level='quick'):
                 cmp('%r==%r' % (cs, ct), B == T, cs == ct)
                 cmp('%r!=%r' % (cs, ct), B != T, cs != ct)
                 cmp('%r==lit %r' % (cs, ct), B == ct, cs == ct)
+                cmp('%r<%r' % (cs, ct), B < T, cs < ct)
+                cmp('%r<=%r' % (cs, ct), B <= T, cs <= ct)
+                cmp('%r>%r' % (cs, ct), B > T, cs > ct)
+                cmp('%r>=%r' % (cs, ct), B >= T, cs >= ct)
                 cmp('%r.startswith(%r)' % (cs, ct), B.startswith(T), cs.startswith(ct))
                 cmp('%r.endswith(%r)' % (cs, ct), B.endswith(T), cs.endswith(ct))
                 cmp('%r in %r' % (ct, cs), T in B, ct in cs)
